@@ -8,7 +8,7 @@ from common import Ctx, driver_json, fmt
 import uni_common as U
 
 PROPERTY = "C09"
-LEAN_MODULES = ["Proofs.C09", "Proofs.C09.Kernel", "Proofs.C09.Recip", "Proofs.C09.Tick", "Proofs.C09.ByValue"]
+LEAN_MODULES = ["Proofs.C09", "Proofs.C09.Kernel", "Proofs.C09.Recip", "Proofs.C09.Tick", "Proofs.C09.ByValue", "Proofs.C09.Fee"]
 DRIVERS = ["driver"]
 RULE = ("each case builds a real UniLpMarket on pool (token0 = quote) and on its mirror (token0 = base; ticks negated, per-token volumes swapped, "
         "same base/quote price, same wallet) and runs the same sequence of base/quote-denominated operations on both: add_liquidity (by price), "
@@ -601,6 +601,77 @@ def directed_streams(ctx, rng):
         run_sequence(ctx, rng, rng.randint(1, 4), frac=Fraction(rng.choice((1, 2, 3, 5, 7, 8, 9)), 10), est_p=1)
 
 
+def fee_bound_stream(ctx, rng):
+    """fee accrual with the tick path touching a range bound (theorem C09_fee_mirror and its witness C09_fails_fee_mirror_on_lower_bound).
+    `update_fee` uses the half-open range [lower, upper): negating ticks maps it to (-upper, -lower], so a tick that sits on a bound changes
+    class in the mirror.  A *moving* path is unaffected (closed-interval overlap is symmetric: arriving on / leaving a bound must agree, held to
+    the property); a tick *stationary* on a bound accrues the whole bar in one token order and nothing in the other — the known finding
+    `mirror.fee.stationary-on-bound`.  The position is opened with the price well inside the range, then bars walk the tick."""
+    def pend(P):
+        oa, ob = observe(P.A, False), observe(P.B, True)
+        out = []
+        for k in sorted(oa["positions"]):
+            a, b = oa["positions"][k], ob["positions"].get(k)
+            if b is None:
+                return None
+            out.append(((Fraction(a["pending_base"]), Fraction(a["pending_quote"])), (Fraction(b["pending_base"]), Fraction(b["pending_quote"]))))
+        return out
+
+    def same(P, before, after):
+        """fee increments of the bar agree between the two orientations"""
+        tol = max(TOL, liq_granularity(P))
+        for (a0, b0), (a1, b1) in zip(before, after):
+            for i in (0, 1):
+                if not close(a1[i] - a0[i], b1[i] - b0[i], tol, Fraction(1, 10 ** 30)):
+                    return False
+        return True
+
+    for fee in U.FEES:
+        sp = int(Decimal(str(fee)) * 200)
+        for spec in SPECS:
+            for bound in ("lower", "upper"):
+                for _ in range(ctx.scale(1, 6)):
+                    width = rng.randint(4, 40) * sp
+                    lo = rng.randint(-BAND // sp, BAND // sp - 41) * sp
+                    up = lo + width
+                    t_in = lo + (width // sp // 2) * sp
+                    tb = lo if bound == "lower" else up
+                    t_out = lo - rng.randint(1, 5) * sp if bound == "lower" else up + rng.randint(1, 5) * sp
+                    P = Pair(rng, *spec, fee, t_in)
+                    w = P.A
+                    bb, qb = w.broker.assets[w.pool.base_token].balance, w.broker.assets[w.pool.quote_token].balance
+                    op = {"op": "add_by_tick", "lower": lo, "upper": up, "base": bb * Decimal("0.2"), "quote": qb * Decimal("0.2"), "sqrt": None, "tick": None,
+                          "trim": True}
+                    rep = {"pair": P.spec, "ops": [{k: (fmt(v) if isinstance(v, (Decimal, Fraction)) else v) for k, v in op.items()}]}
+                    (ea, _), (eb, _) = apply_both(P, op)
+                    if ea or eb or not P.A.market.positions:
+                        ctx.case(f"fee-bound:{bound}:{P.dq}/{P.db}:{fee}:add-rejected")
+                        continue
+                    # inside -> onto the bound (moving), stay on it (stationary: the finding), off it to the outside (moving), back onto it from
+                    # outside (moving), stay (stationary again, now entered from outside), back inside (moving)
+                    for tick, kind in ((tb, "arrive-from-inside"), (tb, "stationary"), (t_out, "leave-to-outside"), (tb, "arrive-from-outside"),
+                                       (tb, "stationary"), (t_in, "leave-to-inside")):
+                        before = pend(P)
+                        P.refresh(rng, tick)
+                        after = pend(P)
+                        rep = {"pair": P.spec, "ops": rep["ops"] + [{"op": "bar", "tick": tick}]}
+                        if before is None or after is None:
+                            break
+                        moved = any(a1 != a0 or b1 != b0 for (a0, b0), (a1, b1) in zip(before, after))
+                        ok = same(P, before, after)
+                        ctx.case(f"fee-bound:{bound}:{kind}:{P.dq}/{P.db}:{fee}:{'accrued' if moved else 'nothing'}:{'same' if ok else 'differs'}")
+                        if ok:
+                            continue
+                        inc_a = [[float(a1[i] - a0[i]) for i in (0, 1)] for (a0, _), (a1, _) in zip(before, after)]
+                        inc_b = [[float(b1[i] - b0[i]) for i in (0, 1)] for (_, b0), (_, b1) in zip(before, after)]
+                        if kind == "stationary":
+                            ctx.violate("mirror.fee.stationary-on-bound", f"fee accrual with the tick stationary on the {bound} bound {tb} of [{lo},{up}] "
+                                        f"(token0=quote pool; mirror: tick {-tb} on [{-up},{-lo}]): bar increments (base, quote) {inc_a} vs mirror {inc_b}", rep)
+                        else:
+                            ctx.violate(f"mirror.fee.{kind}", f"fee accrual of a bar whose tick path {kind} ({bound} bound {tb} of [{lo},{up}]) differs between "
+                                        f"the token0=quote pool and its mirror: increments (base, quote) {inc_a} vs {inc_b}", rep)
+
+
 def estimate_edge_stream(ctx, rng, n):
     """estimate_liquidity / estimate_amount with a range bound within one tick of a price that is not on a tick: estimate_liquidity decides
     below / inside / above by the floor tick of the pool's own orientation (`current_tick <= lower_tick` is "below"), which is not
@@ -655,6 +726,7 @@ def run(ctx: Ctx):
     for i in range(ctx.scale(600, 12000)):
         run_sequence(ctx, rng, rng.randint(2, 9))
     directed_streams(ctx, rng)
+    fee_bound_stream(ctx, rng)
     estimate_edge_stream(ctx, rng, ctx.scale(60, 1500))
     midpoint_stream(ctx, rng, ctx.scale(40, 1000))
     ctx.impl_traces = ctx.evaluations
